@@ -20,11 +20,9 @@ Definition array_lang (l : string) : string := if String.eqb l "julia" then "jul
 Definition origin (l : string) : Z :=
   if String.eqb l "darr" || String.eqb l "numpymemmap" || String.eqb l "idl" then 0 else 1.
 
-(* (k, position word) of the example statement *)
-Definition example_of (l : string) (n : Z) : Z * string :=
-  if Z.ltb 2 n then (2 + origin l, "third")
-  else if Z.eqb n 2 then (1 + origin l, "second")
-  else (origin l, "first").
+(* (k, position word) of the example statement: the selection every composer makes from
+   len(dra), GENERATED from darr/readcoderaggedarray.py (Gen_tables.ragged_example) *)
+Definition example_of (l : string) (n : Z) : Z * string := ragged_example l n.
 
 Definition rpath (m : pathmode) (sub : string) : string :=
   match m with
